@@ -311,7 +311,8 @@ NUM_BOUNDARY = [
 ]
 NUM_CTX = ["{}", "x={};", "%eval({})", "%sysevalf({})", "%sysevalf({},int)", "%if {} %then a;", "%eval(1+{})",
            "%sysfunc(f({}))", "%do i={} %to {};", "%scan(a,{})", "{} {}", "%eval( {} )", "%eval({}/*c*/)",
-           "%sysevalf({}eq{})", "%let a={};"]
+           "%sysevalf({}eq{})", "%let a={};", "%eval(%{})", "%sysevalf(%{} + 1)", "%if %{} %then;", "%eval(1 %{})", "%eval(a%{})",
+           "%scan(a,%{})", "%eval(&v%{})", "%eval({}%)"]
 
 
 def num_family(rng, n, exhaustive_len=3):
